@@ -371,6 +371,15 @@ def catalogue():
             else:
                 body = "const pr: [str, int] = xs\nprint \"@run\"\n" + probe("pr[0]") + probe("pr[1]")
             c.append(("cat|open-list-into-heterogeneous-fixed-list:%s:%s" % (nm, lst), head + body))
+    # the same with a fixed shape that has an OPTIONAL slot (the comparison of such a slot with the list's element type depends on the
+    # type check flags, so it takes another path through the type comparison than plain slots do)
+    for fixed_t, slots in (("[str?, int]", ("str", "int")), ("[int?, str]", ("int", "str")), ("[int, str?]", ("int", "str")), ("[str?, int?]", ("str", "int"))):
+        for lst, init in (("[str...]", "[\"ab\", \"cy\"]"), ("[int...]", "[4, 5]")):
+            head = "xs: %s = %s\n" % (lst, init)
+            probes = "".join(probe("pr[%d]" % i) for i in range(2)) + "".join(probe(("((pr[%d]) or \"z\").len()" if sl == "str" else "((pr[%d]) or 0) + 1") % i) if "?" in fixed_t.strip("[]").split(", ")[i] else probe(("(pr[%d]).len()" if sl == "str" else "pr[%d] + 1") % i) for i, sl in enumerate(slots))
+            c.append(("cat|open-list-into-fixed-list-with-optional-slot:argument:%s:%s" % (fixed_t, lst), head + "take = fn(pr: %s) -> int {\n%s\treturn 1\n}\nprint \"@run\"\n" % (fixed_t, "".join("\t" + l + "\n" for l in probes.strip().split("\n"))) + probe("take(xs)")))
+            c.append(("cat|open-list-into-fixed-list-with-optional-slot:initializer:%s:%s" % (fixed_t, lst), head + "const pr: %s = xs\nprint \"@run\"\n" % fixed_t + probes))
+            c.append(("cat|open-list-into-fixed-list-with-optional-slot:return:%s:%s" % (fixed_t, lst), head + "mk = fn() -> %s {\n\treturn xs\n}\nconst pr = mk()\nprint \"@run\"\n" % fixed_t + probes))
     c.append(("cat|empty-list-type-annotation", "strs: [str...] = [\"a\"]\nlaunder = fn(e: []) -> [] {\n\treturn e\n}\nints: [int...] = launder(strs)\nprint \"@run\"\n" + probe("ints[0]") + probe("ints[0] - 1")))
     c.append(("cat|list-of-nil-two-element-types", "const e = [nil]\na: [int?...] = e\nb: [str?...] = e\na.push(5)\nprint \"@run\"\nv = get b[1]\n" + probe("v") + probe("v.len()")))
     c.append(("cat|void-call-as-list-element", "g = fn() {\n}\nprint \"@run\"\nconst l = [g()]\n" + probe("l.len()") + "print l\n"))
